@@ -2,7 +2,8 @@
    This file contains only the final statements; every proof is one [exact]. *)
 From GmVerif Require Import Base.ListX Base.Bytes Hash.MD Hash.SM3 Hash.SM3Proofs
   Hash.SHA2 Hash.SHA2Proofs Hash.Hmac Hash.HmacProofs Hash.Instances Hash.C03Lemmas
-  Hash.SM3Unrolled Hash.SM3UnrolledProofs.
+  Hash.SM3Unrolled Hash.SM3UnrolledProofs
+  Gen.HashTables Hash.HashTablesProofs Hash.Sha2Consts.
 
 Theorem C03_sm3_stream : forall chunks : list (list N),
   sm3_finish (fold_left sm3_update chunks sm3_init) = sm3 (concat chunks).
@@ -108,3 +109,36 @@ Theorem C03_sm3_unrolled_eq_rounds : forall st blk,
   sm3_compress_unrolled st blk = sm3_compress st blk.
 Proof. exact sm3_unrolled_eq_rounds. Qed.
 Print Assumptions C03_sm3_unrolled_eq_rounds.
+
+(* Source-derived tables: the round constants and initial values in src/sm3.c, src/sm3_sse.c,
+   src/sha1.c, src/sha256.c, src/sha512.c (copied into Gen/HashTables.v by tools/consts_hash.py on
+   every run) are the constants of the Spec, and the literal K table of the unrolled model is the
+   source's. *)
+Theorem C03_hash_tables :
+  c_sm3_K = sm3_K_spec /\ c_sm3_iv = sm3_iv /\ c_sm3sse_K = sm3_K_spec /\ c_sm3sse_iv = sm3_iv /\
+  c_sha1_K = sha1_K_spec /\ c_sha1_iv = H1 /\
+  c_sha256_K = K256 /\ c_sha256_iv = H256 /\ c_sha224_iv = H224 /\
+  c_sha512_K = K512 /\ c_sha512_iv = H512 /\ c_sha384_iv = H384.
+Proof. exact hash_tables_ok. Qed.
+Print Assumptions C03_hash_tables.
+
+Theorem C03_unrolled_K_table_is_source : K_table = c_sm3_K.
+Proof. exact unrolled_K_table_is_source. Qed.
+Print Assumptions C03_unrolled_K_table_is_source.
+
+(* The Spec's SHA-2 constants are the ones FIPS 180-4 defines arithmetically (fraction bits of
+   the cube / square roots of the first primes), by exact integer-root bracketing. *)
+Theorem C03_sha2_constants_are_fips180 :
+  all2 (root_ok 3 32) (firstn 64 primes80) K256 = true /\
+  all2 (root_ok 3 64) primes80 K512 = true /\
+  all2 (root_ok 2 32) (firstn 8 primes80) H256 = true /\
+  all2 (root_ok 2 64) (firstn 8 primes80) H512 = true /\
+  all2 (root_ok 2 64) primes_9_16 H384 = true /\
+  all2 (fun p c => root_ok 2 64 p (N.shiftl (N.shiftr (frac_root 2 64 p) 32) 32 + c)) primes_9_16 H224 = true.
+Proof. exact sha2_constants_are_fips180. Qed.
+Print Assumptions C03_sha2_constants_are_fips180.
+
+Theorem C03_sha1_K_is_square_roots :
+  all2 (fun p c => is_iroot 2 (p * 2 ^ 60) c) [2; 3; 5; 10]%N [sha1_k 0; sha1_k 20; sha1_k 40; sha1_k 60] = true.
+Proof. exact sha1_K_is_square_roots. Qed.
+Print Assumptions C03_sha1_K_is_square_roots.
